@@ -207,3 +207,16 @@ func Thaw() {
 	}
 	frozenVals, frozenDump = nil, nil
 }
+
+// StrPlain: non-empty, lower-case ASCII letters only.
+func StrPlain(s string) bool {
+	if s == "" {
+		return false
+	}
+	for _, c := range s {
+		if c < 'a' || c > 'z' {
+			return false
+		}
+	}
+	return true
+}
